@@ -34,12 +34,13 @@ OPS = ("union", "intersection", "difference", "symmetric_difference")
 OPERATOR = {"union": "__or__", "intersection": "__and__", "difference": "__sub__",
             "symmetric_difference": "__xor__"}
 
-QUICK_SHAPES = [(0, 0), (0, 1), (1, 0), (0, 2), (2, 0), (1, 1), (2, 1), (1, 2)]
-THOROUGH_SHAPES = QUICK_SHAPES + [(0, 3), (3, 0), (2, 2), (3, 1), (1, 3), (3, 2), (2, 3)]
+QUICK_SHAPES = [(0, 0), (0, 1), (1, 0), (0, 2), (2, 0), (1, 1), (2, 1), (1, 2), (2, 2)]
+THOROUGH_SHAPES = QUICK_SHAPES + [(0, 3), (3, 0), (3, 1), (1, 3), (4, 1), (1, 4), (3, 2), (2, 3)]
 
 BOUNDS = {
     "quick": {"end points / probe": "every integer in [-2**31, 2**31) (probe: 2 beyond on each side)",
               "binary operations: (ranges in a, ranges in b)": [list(s) for s in QUICK_SHAPES],
+              "symmetric_difference": "shapes with at most 3 ranges in total",
               "contains: ranges": "0..4", "cardinality/len/empty: ranges": "0..4",
               "constructor: raw arguments (each an int or a pair)": "0..2, all int/pair shapes",
               "merge_overlapping_intervals: sorted non-empty ranges": "0..4",
@@ -62,8 +63,8 @@ ASSUMPTIONS = ["operand states are canonical (sorted, non-empty, non-overlapping
                "denotation, cardinality by inclusion-exclusion and set equality via critical points are defined in /verif/ref/intset.py",
                "iteration: range(a, b) over symbolic bounds yields a, a+1, ... while < b (shim used only by the iteration harness)"]
 SHIMS_USED = ["isinstance", "int", "range", "bool"]
-JOB_TIMEOUT = {"quick": 300, "thorough": 1800}
-CARD_ORACLE_MAX = 2     # total number of operand ranges up to which |result| is ALSO compared with the
+JOB_TIMEOUT = {"quick": 900, "thorough": 3000}
+CARD_ORACLE_MAX = 4     # total number of operand ranges up to which |result| is ALSO compared with the
                         # inclusion-exclusion count over the operands (bit-vector sums are costly to prove)
 
 
@@ -114,27 +115,53 @@ def probe(mk):
     return mk.int("x", LO - 2, HI + 2)
 
 
-def split_assume(mk, a, b, split):
-    """partition of the input space by the position of b's first lower end point relative to a's
-    ranges (2*len(a)+1 cells: before a0 / inside a0 / between a0 and a1 / ... / after the last);
-    cell index `split`.  Only used to spread one shape over several worker processes."""
-    if split is None:
-        return
-    p = b[0][0]
-    i, inside = divmod(split, 2)
+def _position(a, p, c):
+    """point p lies in cell c of the line cut by the canonical ranges a:
+    c = 2i   : in the gap before range i (after range i-1; i = len(a): after the last range)
+    c = 2i+1 : inside range i"""
+    i, inside = divmod(c, 2)
     if inside:
-        mk.assume(sym_and(a[i][0] <= p, p <= a[i][1]))
-    else:
-        cs = [True]
-        if i > 0:
-            cs.append(a[i - 1][1] < p)
-        if i < len(a):
-            cs.append(p < a[i][0])
-        mk.assume(sym_and(*cs))
+        return sym_and(a[i][0] <= p, p <= a[i][1])
+    cs = [True]
+    if i > 0:
+        cs.append(a[i - 1][1] < p)
+    if i < len(a):
+        cs.append(p < a[i][0])
+    return sym_and(*cs)
 
 
-def n_splits(ka, kb):
-    return 2 * ka + 1 if kb >= 1 and ka >= 1 else 1
+def _cell(a, b, split):
+    """split = [c1] or [c1, c2]: position of b's least element (and of b's greatest element)
+    relative to a's ranges"""
+    cs = [_position(a, b[0][0], split[0])]
+    if len(split) > 1:
+        cs.append(_position(a, b[-1][1], split[1]))
+    return sym_and(*cs)
+
+
+def split_cells(ka, kb, level):
+    """the cells of a partition of the input space of shape (ka, kb); only used to spread one shape
+    over several worker processes (SplitCompleteHarness proves that the cells cover everything)"""
+    if level == 0 or ka == 0 or kb == 0:
+        return [None]
+    n = 2 * ka + 1
+    if level == 1:
+        return [[c] for c in range(n)]
+    return [[c1, c2] for c1 in range(n) for c2 in range(c1, n)]
+
+
+def split_level(op, ka, kb):
+    t = ka + kb
+    if ka == 0 or kb == 0 or t <= 3:
+        return 0
+    if t == 4 or min(ka, kb) == 1:
+        return 1
+    return 2
+
+
+def split_assume(mk, a, b, split):
+    if split is not None:
+        mk.assume(_cell(a, b, split))
 
 
 def card_canon(ranges):
@@ -161,7 +188,7 @@ def card_op(op, a, b):
         return m
     if op == "difference":
         return ca - m
-    return ca + cb - 2 * m
+    return ca + cb - m - m
 
 
 class Base(Harness):
@@ -180,15 +207,15 @@ def result_view(r):
 def result_posts(v, denote, x, card=None):
     """obligations on a result set `v` (result_view) that must denote {x | denote}.
     cardinality()/len/empty/bool are judged against the set denoted by the result's own ranges
-    (which the other obligations tie to the operands); where `card` is given (small shapes) the
-    cardinality is additionally compared with |a op b| computed from the operands alone."""
+    (which the other obligations tie to the operands and prove canonical); where `card` is given
+    the cardinality is additionally compared with |a op b| computed from the operands alone."""
     rr = v["ranges"]
     posts = {"result-is-IntegerSet": v["type"] == "IntegerSet",
              "membership-agrees": R.iff(R.member(rr, x), denote)}
     posts.update({"canonical:" + k: c for k, c in R.canonical_parts(rr).items()})
-    n = R.card_disjoint(rr)
-    posts["cardinality-of-denoted-ranges"] = implies(R.pairwise_disjoint(rr),
-                                                     sym_and(v["card"] == n, v["len"] == n))
+    # canonical ranges are non-empty and pairwise disjoint: the denoted set has sum(hi-lo+1) elements
+    n = sum((hi - lo + 1 for lo, hi in rr), 0)
+    posts["cardinality-of-denoted-ranges"] = implies(R.canonical(rr), sym_and(v["card"] == n, v["len"] == n))
     nothing = R.denotes_nothing(rr)
     posts["empty-and-bool-agree"] = sym_and(R.iff(v["empty"], nothing), R.iff(v["truth"], sym_not(nothing)))
     if card is not None:
@@ -202,7 +229,7 @@ class OpHarness(Base):
 
     def __init__(self, op, ka, kb, operator=False, split=None):
         self.op, self.ka, self.kb, self.operator, self.split = op, ka, kb, operator, split
-        sp = "" if split is None else f",cell{split}"
+        sp = "" if split is None else ",cell" + "-".join(str(c) for c in split)
         self.name = f"IntegerSet.{OPERATOR[op] if operator else op}[{ka},{kb}{sp}]"
         self.params = dict(op=op, ka=ka, kb=kb, operator=operator, split=split)
 
@@ -232,10 +259,10 @@ class OpHarness(Base):
 class SplitCompleteHarness(Base):
     """the cells used to spread a shape over processes cover the whole input space"""
 
-    def __init__(self, ka, kb):
-        self.ka, self.kb = ka, kb
-        self.name = f"split-cells-cover[{ka},{kb}]"
-        self.params = dict(ka=ka, kb=kb)
+    def __init__(self, ka, kb, level):
+        self.ka, self.kb, self.level = ka, kb, level
+        self.name = f"split-cells-cover[{ka},{kb},level{level}]"
+        self.params = dict(ka=ka, kb=kb, level=level)
 
     def inputs(self, mk):
         return dict(a=canon_state(mk, "a", self.ka), b=canon_state(mk, "b", self.kb))
@@ -245,20 +272,7 @@ class SplitCompleteHarness(Base):
 
     def post(self, i, out):
         a, b = i["a"], i["b"]
-        p = b[0][0]
-        cells = []
-        for s in range(n_splits(self.ka, self.kb)):
-            k, inside = divmod(s, 2)
-            if inside:
-                cells.append(sym_and(a[k][0] <= p, p <= a[k][1]))
-            else:
-                cs = [True]
-                if k > 0:
-                    cs.append(a[k - 1][1] < p)
-                if k < len(a):
-                    cs.append(p < a[k][0])
-                cells.append(sym_and(*cs))
-        return {"cells-cover": sym_or(*cells)}
+        return {"cells-cover": sym_or(*[_cell(a, b, c) for c in split_cells(self.ka, self.kb, self.level)])}
 
 
 class ContainsHarness(Base):
@@ -328,7 +342,7 @@ class CtorHarness(Base):
             return {"no-exception": False}
         raw = raw_ranges(i["vals"])
         return result_posts(out.value, R.member(raw, i["x"]), i["x"],
-                            R.card(raw) if len(raw) <= CARD_ORACLE_MAX else None)
+                            R.card(raw) if len(raw) <= 3 else None)
 
 
 class MergeHarness(Base):
@@ -503,8 +517,8 @@ def mk_op(op, ka, kb, operator=False, split=None):
     return OpHarness(op, ka, kb, operator, split)
 
 
-def mk_split(ka, kb):
-    return SplitCompleteHarness(ka, kb)
+def mk_split(ka, kb, level):
+    return SplitCompleteHarness(ka, kb, level)
 
 
 def mk_contains(k):
@@ -548,28 +562,28 @@ def _shapes(n):
 
 def jobs(tier, seed):
     quick = tier == "quick"
-    js = []
-    shapes = QUICK_SHAPES if quick else THOROUGH_SHAPES
-    split_from = 4          # shapes with ka+kb >= this are spread over cells
     heavy, light = [], []
+    levels = set()
     for op in OPS:
-        for ka, kb in shapes:
-            if ka + kb >= split_from and n_splits(ka, kb) > 1:
-                for s in range(n_splits(ka, kb)):
-                    heavy.append(("mk_op", dict(op=op, ka=ka, kb=kb, split=s)))
-            else:
-                light.append(("mk_op", dict(op=op, ka=ka, kb=kb)))
+        for ka, kb in (QUICK_SHAPES if quick else THOROUGH_SHAPES):
+            if quick and op == "symmetric_difference" and ka + kb >= 4:
+                continue        # composition of two differences and a union: thorough tier only
+            lv = split_level(op, ka, kb)
+            cells = split_cells(ka, kb, lv)
+            for c in cells:
+                (heavy if ka + kb >= 4 else light).append(("mk_op", dict(op=op, ka=ka, kb=kb, split=c)))
+            if len(cells) > 1:
+                levels.add((ka, kb, lv))
         for ka, kb in ((0, 1), (1, 0), (1, 1)):
             light.append(("mk_op", dict(op=op, ka=ka, kb=kb, operator=True)))
-    for ka, kb in shapes:
-        if ka + kb >= split_from and n_splits(ka, kb) > 1:
-            light.append(("mk_split", dict(ka=ka, kb=kb)))
+    for ka, kb, lv in sorted(levels):
+        light.append(("mk_split", dict(ka=ka, kb=kb, level=lv)))
     kmax = 4 if quick else 6
     for k in range(kmax + 1):
         light.append(("mk_contains", dict(k=k)))
         light.append(("mk_card", dict(k=k)))
         light.append(("mk_merge", dict(k=k)))
-    for sh in _shapes(2 if quick else 3):
+    for sh in _shapes(2 if quick else 3) + ([] if quick else ["tttt"]):
         (heavy if len(sh) >= 3 else light).append(("mk_ctor", dict(shape=sh)))
     ke = 2 if quick else 3
     for ka in range(ke + 1):
@@ -583,6 +597,9 @@ def jobs(tier, seed):
             light.append(("mk_law", dict(law=law, ka=ka, kb=kb)))
     for k, total in ([(0, 5), (1, 5), (2, 5)] if quick else [(0, 7), (1, 7), (2, 7), (3, 7)]):
         light.append(("mk_iter", dict(k=k, total=total)))
+    # longest jobs first
+    heavy.sort(key=lambda j: -(j[1].get("ka", 0) + j[1].get("kb", 0) + len(j[1].get("shape", "")) +
+                               (1 if j[1].get("op") == "symmetric_difference" else 0)))
     js = heavy + light
     only = os.environ.get("VERIF_ONLY")
     if only:
